@@ -100,7 +100,8 @@ def main():
         wc = f.get("witness_class")
         for w in (wc if isinstance(wc, list) else [wc]):
             have.add((f["property"], f["key"], w))
-    for f in sorted(glob.glob(os.path.join(ROOT, "replays", prop, "*.json"))):
+    rdir = os.environ.get("VERIF_REPLAY_DIR", os.path.join(ROOT, "replays"))
+    for f in sorted(glob.glob(os.path.join(rdir, prop, "*.json"))):
         w = json.load(open(f))
         oid = w["obligation"]
         wc = (w.get("witness") or {}).get("class")
